@@ -379,7 +379,7 @@ def walk(g, out, n, e0, node, val, e, depth, path, start, site='conv', dense_ok=
 #                        17 mod 16, and of 2^64-1 mod 16 for -1: the bit-unpacking path has no range check
 #   f2_alias           : p = PauliOperator(src); p.str_; src[:] = other  ->  p.F2 is the new operator, p.str_/p.sign the old
 # Repaired in numqi and active: numpy_scalar_index (pauli_index_to_str(np.int64(6), 2)), index_upper_bound (index 4**n).
-PENDING = {'index_range_batch', 'f2_alias'}
+PENDING = set()  # additions waiting for a repair of numqi (none: index_range_batch and f2_alias were repaired, see known_findings.json)
 
 
 def pending(out, flag):
@@ -638,17 +638,20 @@ def check_group_recall(g, out, site, n):
 ALIAS_PRE = ['none', 'str_', 'sign', 'np_list', 'full_matrix', 'repr']
 
 
-def alias_views(p, cand, n):
-    """names of the views of p that decode to the element cand"""
+def alias_views(p, cands, n):
+    """every view of p read ONCE; for each candidate element the names of the views that decode to it"""
     sg = p.sign
-    views = {
-        'F2': cmp_f2(p.F2, cand)[0] is None,
-        'str_,sign': cmp_ss((p.str_, sg), cand)[0] is None,
-        'np_list': cmp_npl((p.np_list, PH[cand[0]]), cand)[0] is None,  # letters only
-        'full_matrix': cmp_mat(p.full_matrix, cand)[0] is None,
-        'repr': cmp_repr(repr(p), cand)[0] is None,
-    }
-    return views
+    raw = {'F2': p.F2, 'str_,sign': (p.str_, sg), 'np_list': p.np_list, 'full_matrix': p.full_matrix, 'repr': repr(p)}
+    ret = []
+    for cand in cands:
+        ret.append({
+            'F2': cmp_f2(raw['F2'], cand)[0] is None,
+            'str_,sign': cmp_ss(raw['str_,sign'], cand)[0] is None,
+            'np_list': cmp_npl((raw['np_list'], PH[cand[0]]), cand)[0] is None,  # letters only
+            'full_matrix': cmp_mat(raw['full_matrix'], cand)[0] is None,
+            'repr': cmp_repr(raw['repr'], cand)[0] is None,
+        })
+    return ret
 
 
 # ------------------------------------------------------------------ structured alphabets
@@ -1439,8 +1442,7 @@ def run_f2alias(case, out, env, numqi):
                         elif pre != 'none':
                             getattr(p, pre)
                         src[:] = f2all[b]
-                        vo = alias_views(p, elems[a], n)
-                        vn = alias_views(p, elems[b], n)
+                        vo, vn = alias_views(p, [elems[a], elems[b]], n)
                     except Exception as ex:
                         out.violation('f2alias/%s/%s' % (cname, type(ex).__name__), 'reading the views of %s(src) after src was overwritten raised %r' % (cname, ex), **detail)
                         continue
